@@ -11,6 +11,8 @@ func init() {
 	vHarnesses["H_C03_shape"] = H_C03_shape
 	vHarnesses["H_C03_disj"] = H_C03_disj
 	vHarnesses["H_C17_disj"] = H_C17_disj
+	vHarnesses["H_C17_wide"] = H_C17_wide
+	vHarnesses["H_C10_disj"] = H_C10_disj
 	vHarnesses["H_C04_gen"] = H_C04_gen
 	vHarnesses["H_C01_gen2"] = H_C01_gen2
 	vHarnesses["H_C01_shape"] = H_C01_shape
@@ -96,6 +98,17 @@ func H_C16_alias(inst int) {
 func H_C08_rep(inst int) {
 	i := newFull()
 	engine.VH_C08_rep(&i.VM, inst)
+}
+
+// H_C17_wide: wide heads with short alternations. H_C10_disj: the clause-body context of the disjunction shapes.
+func H_C17_wide(inst int) {
+	i := newFull()
+	engine.VH_C17_wide(&i.VM, inst)
+}
+
+func H_C10_disj(inst int) {
+	i := newFull()
+	engine.VH_C03_disj(&i.VM, inst)
 }
 
 // H_C03_disj / H_C17_disj: every parenthesisation of a disjunction / alternation containing one if-then.
